@@ -459,22 +459,37 @@ func c17Type3(run *c17Run, G int, seeds [][]byte, key interface{}) {
 func c17Batch(run *c17Run, G int, seeds [][]byte, keyVal *oprf.PrivateKey, key interface{}) {
 	c := run.c
 	rk := keyRSA(key)
+	// two type-1 issuers with different truncated key ids and one type-2 issuer behind one batch issuer;
+	// concurrent batches address different keys of the same type
+	var keyVal2 *oprf.PrivateKey
+	for j := 0; ; j++ {
+		keyVal2 = VOPRFKey(oprf.SuiteP384, append([]byte{byte(j)}, seeds[0]...))
+		if lastByte(RefVOPRFKeyID(keyVal2)) != lastByte(RefVOPRFKeyID(keyVal)) {
+			break
+		}
+	}
+	vals := []*oprf.PrivateKey{keyVal, keyVal2}
 	i1 := type1.NewBasicPrivateIssuer(FreshVOPRFKey(oprf.SuiteP384, keyVal))
+	i1b := type1.NewBasicPrivateIssuer(FreshVOPRFKey(oprf.SuiteP384, keyVal2))
 	i2 := type2.NewBasicPublicIssuer(rk)
-	id1 := RefVOPRFKeyID(keyVal)
+	ids := [][]byte{RefVOPRFKeyID(keyVal), RefVOPRFKeyID(keyVal2)}
 	id2 := type2.NewBasicPublicIssuer(rk).TokenKeyID()
-	pk1Enc, _ := keyVal.Public().MarshalBinary()
-	bi := batched.NewBasicBatchedIssuer(batchIssuer1{i1}, batchIssuer2{i2})
+	pkEncs := make([][]byte, 2)
+	for j, v := range vals {
+		pkEncs[j], _ = v.Public().MarshalBinary()
+	}
+	bi := batched.NewBasicBatchedIssuer(batchIssuer1{i1}, batchIssuer1{i1b}, batchIssuer2{i2})
 	wants := make([][]byte, G)
 	for gi := 0; gi < G; gi++ {
 		r := core.NewRand(int64(gi), string(seeds[gi]))
 		n1, c1 := r.Bytes(32), r.Bytes(10)
-		wants[gi] = RefVOPRF(oprf.SuiteP384, keyVal, ref.TokenBytes(1, n1, c1, id1, nil))
+		wants[gi] = RefVOPRF(oprf.SuiteP384, vals[gi%2], ref.TokenBytes(1, n1, c1, ids[gi%2], nil))
 	}
 	run.conc(G, func(gi int) {
 		r := core.NewRand(int64(gi), string(seeds[gi]))
 		n1, c1, n2, c2 := r.Bytes(32), r.Bytes(10), r.Bytes(32), r.Bytes(10)
-		s1, err := type1.NewBasicPrivateClient().CreateTokenRequest(c1, n1, id1, ownPublicKey(oprf.SuiteP384, pk1Enc))
+		which := gi % 2
+		s1, err := type1.NewBasicPrivateClient().CreateTokenRequest(c1, n1, ids[which], ownPublicKey(oprf.SuiteP384, pkEncs[which]))
 		if err != nil {
 			run.fail(err.Error())
 			return
@@ -499,8 +514,8 @@ func c17Batch(run *c17Run, G int, seeds [][]byte, keyVal *oprf.PrivateKey, key i
 				continue
 			}
 			es, err := batched.UnmarshalBatchedTokenResponses(out)
-			if err != nil || len(es) != 3 || len(es[1]) != 0 {
-				run.fail(fmt.Sprintf("batch response wrong: %v", err))
+			if err != nil || len(es) != 3 || len(es[1]) != 0 || len(es[0]) == 0 || len(es[2]) == 0 {
+				run.fail(fmt.Sprintf("batch response wrong (entry lengths %v): %v", entryLens(es), err))
 				continue
 			}
 			t1, e1 := s1.FinalizeToken(es[0])
@@ -513,6 +528,14 @@ func c17Batch(run *c17Run, G int, seeds [][]byte, keyVal *oprf.PrivateKey, key i
 			}
 		}
 	})
+}
+
+func entryLens(es [][]byte) []int {
+	var out []int
+	for _, e := range es {
+		out = append(out, len(e))
+	}
+	return out
 }
 
 func c17ECDSA(run *c17Run, G int, seeds [][]byte, rep int) {
